@@ -62,6 +62,36 @@ def spec(tier, seed):
           functions=["rusty_linter::core::casting::cast_binary_op_q", "rusty_linter::core::casting::bigger_numeric_type",
                      "rusty_linter::core::CanCastTo for TypeQualifier"])
 
+    # the same table at the level of expression types: a STRING * n operand behaves like a string
+    b.add(cs, "vk_c12_table_fixed_length_strings", """
+        let (lk, rk, ok): (u8, u8, u8) = (kani::any(), kani::any(), kani::any());
+        kani::assume(lk < 6 && rk < 6 && ok < 13);
+        let n: u16 = kani::any();
+        let m: u16 = kani::any();
+        // kinds 0..4: built-in types, 5: STRING * n
+        let l = if lk < 5 { ExpressionType::BuiltIn(vk_q(lk)) } else { ExpressionType::FixedLengthString(n) };
+        let r = if rk < 5 { ExpressionType::BuiltIn(vk_q(rk)) } else { ExpressionType::FixedLengthString(m) };
+        let lq = if lk < 5 { vk_q(lk) } else { TypeQualifier::DollarString };
+        let rq = if rk < 5 { vk_q(rk) } else { TypeQualifier::DollarString };
+        let op = vk_op(ok);
+        let got = cast_binary_op_et(&l, &r, op);
+        let want = cast_binary_op_q(lq, rq, op);
+        match (&got, &want) {
+            (Some(ExpressionType::BuiltIn(g)), Some(w)) => assert!(*g == *w),
+            (None, None) => {}
+            _ => assert!(false),
+        }
+        // assignability between expression types: strings of any kind with strings, numbers with numbers
+        let ls = lq == TypeQualifier::DollarString;
+        let rs = rq == TypeQualifier::DollarString;
+        assert!(l.can_cast_to(&r) == (ls == rs));
+        assert!(l.can_cast_to(&rq) == (ls == rs));
+        std::mem::forget(got);
+        std::mem::forget(l);
+        std::mem::forget(r);
+        """, unwind=2, exhaustive=True, cost=20, bounds="all 6 x 6 operand kinds (five built-in types and STRING * n for any n) x 13 operators",
+          functions=["rusty_linter::core::casting::cast_binary_op_et", "rusty_linter::core::CanCastTo for ExpressionType"])
+
     for x in T:
         for y in T:
             pair = "every valid %s x %s pair (full width)" % (NAME[x], NAME[y])
